@@ -112,6 +112,28 @@ class ClassModel:
                     return self._class_attrs[key]
         return self._NOATTR
 
+    def enum_truth(self, member: str) -> bool:
+        """bool(Klass.MEMBER) as Python defines it: True for a member of a plain Enum (object truthiness) unless the
+        class defines __bool__; the truth of the value for IntEnum / IntFlag / Flag / StrEnum members."""
+        from .ordabs import Unsupported
+
+        cname, _, mname = member.partition(".")
+        c = self.classes.get(cname)
+        if c is None:
+            return True  # an opaque named constant of a class that is not modelled: an object
+        if any(isinstance(n, ast.FunctionDef) and n.name == "__bool__" for n in c.body):
+            raise Unsupported(f"{self.where}: truth of {member}: the enumeration defines __bool__")
+        bases = {ast.unparse(b).split(".")[-1] for b in c.bases}
+        if bases <= {"Enum"}:
+            return True
+        for n in c.body:
+            if isinstance(n, ast.Assign) and isinstance(n.targets[0], ast.Name) and n.targets[0].id == mname:
+                try:
+                    return bool(ast.literal_eval(n.value))
+                except ValueError as err:
+                    raise Unsupported(f"{self.where}: truth of {member}: its value is not a literal") from err
+        raise Unsupported(f"{self.where}: truth of {member}: no such member")
+
     def set_class_attr(self, cname: str, attr: str, value: Any) -> None:
         """``cls.attr = value``: stored on that class, found by its instances and subclasses through the MRO."""
         if not hasattr(self, "_class_attrs"):
@@ -248,6 +270,18 @@ def new_parser_state(cm: ClassModel, text: str, pos: int, parser: Any, where: st
     return cm.new("ParserState", **{fs["input"]: text, fs["pos"]: pos, fs["parser"]: parser})
 
 
+def maybe_install_re(cm: ClassModel) -> None:
+    """install_re() if one of the modelled files imports a regular-expression engine under the name `re` (files that
+    never did may start to: a line table built with a pattern instead of splitlines())."""
+    for r in cm.rels:
+        for n in cm.repo.mod(r).tree.body:
+            if isinstance(n, ast.Import) and any((a.asname or a.name) == "re" for a in n.names):
+                if not isinstance(cm.env.get("re"), Obj):
+                    cm.env["re"] = Obj("re")
+                install_re(cm)
+                return
+
+
 def install_re(cm: ClassModel) -> None:
     """The repository's regular-expression engine as an oracle on the model (sa/rxoracle.py): `re` in the model
     carries the engine's own flag values, re.compile returns a model Pattern that records pattern and flags and
@@ -256,8 +290,7 @@ def install_re(cm: ClassModel) -> None:
     from . import rxoracle  # noqa: PLC0415
 
     want = rxoracle.module_engine(cm.repo, cm.rels)
-    if want != rxoracle.ENGINE:
-        raise AnalysisError(f"{cm.where}: the modelled files compile their patterns with `{want}`, which is not importable here; the stand-in engine may fold case differently")
+    rxoracle = rxoracle.engine(want)  # the third-party regex module, or the standard library's re, as the files import it
     restub = cm.env.get("re")
     if isinstance(restub, Obj):
         restub.__dict__.update(rxoracle.FLAGS)
@@ -277,8 +310,15 @@ def install_re(cm: ClassModel) -> None:
                                __getitem__=lambda i: m[i])
             return mo
 
-        o.__dict__.update(match=lambda s, *a: wrap(rx.match(s, *a)), fullmatch=lambda s, *a: wrap(rx.fullmatch(s, *a)), search=lambda s, *a: wrap(rx.search(s, *a)))
+        o.__dict__.update(match=lambda s, *a: wrap(rx.match(s, *a)), fullmatch=lambda s, *a: wrap(rx.fullmatch(s, *a)), search=lambda s, *a: wrap(rx.search(s, *a)),
+                          finditer=lambda s, *a: [wrap(m) for m in rx.finditer(s, *a)], findall=lambda s, *a: rx.findall(s, *a), sub=lambda repl, s, *a: rx.sub(repl, s, *a) if isinstance(repl, str) else _no_callable_repl(),
+                          split=lambda s, *a: rx.split(s, *a))
         return o
+
+    def _no_callable_repl() -> None:
+        from .ordabs import Unsupported  # noqa: PLC0415
+
+        raise Unsupported(f"{cm.where}: Pattern.sub with a callable replacement")
 
     cm._cache[("re", "compile")] = compile_  # noqa: SLF001
     cm._cache[("re", "escape")] = lambda _s, x: rxoracle.escape(x)  # noqa: SLF001
